@@ -30,7 +30,7 @@ through a third; the other live objects of a history go through Api as well).  e
                     cls(text, None, None, "utf-8", strict) positional / strict= kw    R H T
                     cls(bytes, encoding="utf-8")                                      R H T
                     cls(mapping): Deb822 object / plain dict with RAW TEXT values     R H T
-                    cls(mapping) with RECORD LISTS, cls(obj), obj.copy()              probe (finding C12-copy-structured)
+                    cls(mapping) with RECORD LISTS                                     R (probe on a rotating sample; fixed e5df170)
                     cls.iter_paragraphs(str / bytes / binary file / text file /       R H T (2 paragraphs, the first is used,
                       list of lines), all-keyword call, use_apt_pkg=False               the count and the class are checked)
                     iter_paragraphs(use_apt_pkg=True) with python-apt                 out: apt_pkg is not installed here
@@ -45,6 +45,8 @@ through a third; the other live objects of a history go through Api as well).  e
                                                                                       TypeError; reported as an observation)
   option            obj.size_field_behavior = v / obj.set_size_field_behavior(v)      R H T (legal and rejected values)
   same object via   copy.copy / copy.deepcopy / pickle round trip (since 794ff51)     R H T (before a dump, between history steps)
+                    obj.copy() / cls(obj) (since e5df170; shallow like dict.copy(),    R H T (the option is assigned again: whether a
+                      sharing of the record lists with the source is never a verdict)   copy carries size_field_behavior is unspecified)
   dump              obj.dump() / str(obj) / bytes(obj) / obj.__unicode__()            R H T
                     dump(fd, None, True) / dump(fd=fd, text_mode=True) (text file)    R H T
                     dump(fd) / dump(fd, "utf-8") / dump(fd=, encoding=, text_mode=)   R H T (binary file)
@@ -109,7 +111,7 @@ PARSE_VARIANTS = ["str", "lines", "StringIO", "bytes", "BytesIO", "lines_nl", "b
                   "iter_str", "iter_bytes", "iter_file", "iter_textfile", "iter_lines", "iter_kw", "subclass", "subclass_iter"]
 BUILD_VARIANTS = ["setitem", "setitem_deb822dict", "update_dict", "update_kw", "update_pairs", "setdefault"]
 DUMP_VARIANTS = ["dump", "str", "bytes", "unicode", "fd_text", "fd_text_kw", "fd_bin", "fd_bin_enc", "fd_kw", "get_as_string"]
-XFORM_VARIANTS = ["none", "none", "none", "copy.copy", "deepcopy", "pickle"]
+XFORM_VARIANTS = ["none", "none", "none", "copy.copy", "deepcopy", "pickle", "copy()", "cls(obj)"]
 _HEAD = re.compile(r"(?m)^([^:\s]+):")
 
 
@@ -226,10 +228,18 @@ class Api:
             obj.set_size_field_behavior(v)
 
     # ---- object -> the same object through copy / pickle (keeps records and option)
-    def transform(self, obj):
+    def transform(self, obj, beh="-"):
+        """obj.copy() / cls(obj) (work since e5df170) copy the mapping like dict.copy(): shallow (record lists
+        are shared with the source: documented semantics, never a verdict) and without the instance's
+        option, which is therefore assigned again (beh) -- whether a copy carries it is not specified"""
         import copy
         import pickle
         v = self.pick("xform", XFORM_VARIANTS)
+        if v in ("copy()", "cls(obj)"):
+            c = obj.copy() if v == "copy()" else type(obj)(obj)
+            if beh not in ("-", "default"):
+                self.setbeh(c, beh)
+            return c
         if v == "copy.copy":
             return copy.copy(obj)
         if v == "deepcopy":
@@ -559,7 +569,7 @@ def run_case(ctx, case, conc, variant, tables):
                 api.build(obj, SPELL[variant.get("spell", 0) % 3](fname), recs)
             if cname == "Release" and variant.get("beh_late"):
                 api.setbeh(obj, beh)
-            obj = api.transform(obj)
+            obj = api.transform(obj, beh)
         except Exception as e:
             return "A: building the paragraph raised %s: %s" % (type(e).__name__, e)
         text, res = api.dump(obj, lnames)
@@ -587,7 +597,7 @@ def run_case(ctx, case, conc, variant, tables):
         api.dump(obj, lnames)
         return None           # unspecified zone (Release/dak + single-line): executed, any outcome accepted
     try:
-        obj = api.transform(obj)
+        obj = api.transform(obj, beh)
     except Exception as e:
         return "B: copying / pickling the parsed paragraph raised %s: %s" % (type(e).__name__, e)
     text2, res = api.dump(obj, lnames)
@@ -706,7 +716,7 @@ def run_history(ctx, case, conc, variant, tables):
                 return m
             done.append("dump")
             try:
-                obj = api.transform(obj)      # the same object through copy.copy / deepcopy / pickle, or itself
+                obj = api.transform(obj, beh if cname == "Release" else "-")   # the same object through copy / pickle, or itself
             except Exception as e:
                 return "%s: copying / pickling the paragraph raised %s: %s" % (what, type(e).__name__, e)
             continue
@@ -760,11 +770,9 @@ FINDING_COPY = "C12-copy-structured"
 
 def copy_probe(ctx, case, conc, tables, rng):
     """secondary ways of making the same paragraph: obj.copy(), cls(obj), cls({field: records}).
-    Expected: a paragraph with the same records that dumps to the same text.  On the tree this check was
-    built on all three raise AttributeError ('list' object has no attribute 'splitlines') as soon as a
-    structured field is present, while copy.copy(obj) works: a divergence between entry points, reported
-    to the lead as finding C12-copy-structured (open in known_findings.json: KNOWN-FINDING; listed as
-    fixed: a recurrence is a violation; not listed: recorded as spec_drift + evidence, not an alarm)."""
+    Expected: a paragraph with the same records that dumps to the same text.  (Before e5df170 all three
+    raised AttributeError as soon as a structured field was present: finding C12-copy-structured, fixed;
+    a recurrence is a violation.)"""
     cname, beh = case["c"], case["b"]
     table = tables[cname]
     lnames = {fld["f"].lower() for fld in table}
@@ -798,16 +806,9 @@ def copy_probe(ctx, case, conc, tables, rng):
         msg = "%s raised %s: %s" % (how, type(e).__name__, e)
     if not msg:
         return
-    known = "AttributeError" in msg and "splitlines" in msg
     entry = [x for x in ctx.findings() if x["id"] == FINDING_COPY]
-    if known and entry and entry[0]["status"] == "open":
+    if "splitlines" in msg and entry and entry[0]["status"] == "open":
         ctx.known_hit(FINDING_COPY)
-    elif known and not entry:
-        n = ctx.extra.setdefault("unregistered_findings", {}).setdefault(FINDING_COPY, {"count": 0, "example": None})
-        n["count"] += 1
-        if n["example"] is None:
-            n["example"] = "%s with %s present: %s" % (cname, [fld[1] for fld in case["F"]], msg)
-            ctx.drift("FINDING (not registered in known_findings.json) %s: %s" % (FINDING_COPY, n["example"]))
     else:
         ctx.violation({"kind": "copyprobe", "case": case, "conc": conc, "tables": tables, "how": how}, msg)
 
@@ -1065,7 +1066,7 @@ def execute(recipe, tables):
 
     def xform(obj):
         try:
-            return api.transform(obj)     # the same object through copy.copy / deepcopy / pickle, or itself
+            return api.transform(obj, cur_beh)     # the same object through copy / pickle, or itself
         except Exception as e:
             events.append({"op": "error", "what": "copying / pickling raised %s: %s" % (type(e).__name__, e)})
             return None
